@@ -17,4 +17,5 @@ NOT_CLAIMED_REASON = {}
 # commits in /repo that add cfg(routinator_verif) hooks
 HOOK_COMMITS = [
     "0a7bef8 verif hook: SharedHistory::verif_init_at / verif_delta_count",
+    "d6f85c4 verif hooks: src/verif.rs registry, history lock points, clock override, process_once wrapper, run outcome injection, notify point, HTTP dispatcher exposure",
 ]
